@@ -103,7 +103,10 @@ def gen_source(shape):
             ovlds = [v for v in vals if v is not None and v["kind"] == "ovld"]
             later_marked = [v for v in ovlds[1:] if v["marker"]]
             prepop = None
-            if later_marked:
+            # ... or the first overloaded f among the bases carries the marker and another base has a plain (single-definition) f: the
+            # marked one extends it
+            first_marked_plain = bool(ovlds) and ovlds[0]["marker"] and any(v is not None and v["kind"] == "plain" for v in vals)
+            if later_marked or first_marked_plain:
                 # a later base whose f still carries extend_super (a mixin class): merged into the first overloaded f when the class is prepared
                 tab = list(ovlds[0]["table"])
                 for v in later_marked:
